@@ -608,9 +608,12 @@ class RTFDocument(BaseModel):
                 resources_dir = html_path.with_name(f"{html_path.name}_files")
                 shutil.move(str(html_path), target_path)
                 if resources_dir.is_dir():
-                    shutil.move(
-                        str(resources_dir), target_path.parent / resources_dir.name
-                    )
+                    resources_target = target_path.parent / resources_dir.name
+                    if resources_target.is_dir():
+                        # Replace the folder left by an earlier export; moving onto
+                        # an existing directory would nest the new folder inside it.
+                        shutil.rmtree(resources_target)
+                    shutil.move(str(resources_dir), resources_target)
 
         print(target_path)
 
